@@ -97,7 +97,10 @@ STATS_RE = re.compile(r"(\d+) states generated, (\d+) distinct states found")
 def run_mc(name, workers=4, timeout=3600, xmx="8g", cfg=None, env=None):
     """L1: exhaustive TLC run of a scaled model. Returns dict(states, distinct, wall)."""
     t = time.time()
-    rc, out = tlc(name + ".tla", cfg or (name + ".cfg"), os.path.join(WORK, "meta_%s_%d" % (name, os.getpid())),
+    module = name
+    if not os.path.exists(os.path.join(SPEC, module + ".tla")):
+        module = name.rsplit("_", 1)[0]          # MC_Calendar_quick -> MC_Calendar.tla + MC_Calendar_quick.cfg
+    rc, out = tlc(module + ".tla", cfg or (name + ".cfg"), os.path.join(WORK, "meta_%s_%d" % (name, os.getpid())),
                   workers=workers, xmx=xmx, timeout=timeout, coverage=True, env=env)
     m = None
     for m in STATS_RE.finditer(out):
